@@ -791,6 +791,19 @@ func c15FailSub(c *core.Ctx, p c15Params) {
 			noConn("after-shutdown")
 		}
 	}
+	// nothing is left behind by query events whose subscription could not be made (nor by the
+	// others: every one of them has expired and every service is stopped)
+	left := 0
+	for i := 0; i < 400; i++ {
+		if left = mon.CountGoroutines("(*queryEvent).startQueryListener"); left == 0 {
+			break
+		}
+		time.Sleep(5 * time.Millisecond)
+	}
+	c.Eval(1)
+	if left > 0 {
+		c.Violation("C15/listener-goroutine-leak:failed-subscription", fmt.Sprintf("%d query event listener goroutines are still alive 2 s after %d rounds of query events with a failed (or impossible) subscription; every query event has expired and every service is stopped", left, p.Rounds), map[string]interface{}{"rounds": p.Rounds})
+	}
 	c.Sample(map[string]interface{}{"scenario": "subscribe failure injected on the n-th query subscription", "rounds": p.Rounds})
 }
 
